@@ -65,6 +65,7 @@ class Check:
         self.assumptions: List[str] = []
         self.floors: Dict[str, int] = {}
         self.robust: set = set()
+        self.superseded: Dict[str, str] = {}  # pinned-shape rule -> evaluated rule that decides the same behaviour
         self.known = _load_known(pid)
 
     # -- recording --------------------------------------------------------
@@ -79,6 +80,10 @@ class Check:
         folded constants, kinds, effects, closed-world 'extra construct' findings) are listed in self.robust and always give a
         VIOLATION.  The other rules read a pinned idiom: when the function they look at was structurally rewritten
         (statements added or recast, see Repo.shape_status) their failure only says 'idiom not recognised' -> ANALYSIS-ERROR."""
+        if rule in self.superseded and self._rewritten(site):
+            # the function was rewritten and an evaluated rule decides this behaviour on the new code: the pinned form is only a reading aid
+            self.obligations.append(Obligation(rule, site, "ok", f"pinned form not matched in a rewritten function; the behaviour is decided by rule `{self.superseded[rule]}` on the current code"))
+            return
         if rule not in self.robust and self._rewritten(site):
             self.obligations.append(Obligation(rule, site, "error", "idiom not recognised in a structurally rewritten function (rule reads the pinned form): " + detail, key, expected, found))
             return
@@ -96,6 +101,9 @@ class Check:
             return False
 
     def error(self, rule: str, site: str, detail: str) -> None:
+        if rule in self.superseded and self._rewritten(site):
+            self.obligations.append(Obligation(rule, site, "ok", f"pinned form not recognised in a rewritten function ({detail[:80]}); the behaviour is decided by rule `{self.superseded[rule]}` on the current code"))
+            return
         self.obligations.append(Obligation(rule, site, "error", detail))
 
     def expect(self, cond: bool, rule: str, site: str, detail_ok: str, detail_bad: str, key: str, expected: Any = None, found: Any = None) -> bool:
